@@ -617,6 +617,9 @@ T_API = ("list positive * list positive * list (positive * value) * bool * "
 T_CLEAR = "list cgraph * (list cgraph * bool)"
 T_DCE = "dgraph * (dgraph * bool)"
 T_TOPO = "topo_case"
+T_OF = ("list positive * positive * list ograph * "
+        "(list (list positive * list (option positive) * list (positive * option nat)) * bool)")
+T_UO = "bool * (uograph * list (positive * uograph)) * ((uograph * list (positive * uograph)) * bool)"
 T_IO = "bool * list (list positive * list positive) * (list (list positive * list positive) * bool)"
 
 
@@ -749,6 +752,33 @@ def correspondence(ck, scale: int) -> dict:
         if i < 1:
             ck.sample({"family": "dce", "spec": spec, "before": before, "after": after, "modified": res.modified})
     fam["dce"] = (cases, terms, T_DCE, "dce_agree")
+    # ---- OutputFix (contract-level model) on the rich family + the duplicate-output family
+    cases, terms = [], []
+    for i, spec in enumerate(dup_output_family() + [I.gen_spec(rng) for _ in range(200 * scale)]):
+        try:
+            term, mod = run_outputfix_case(spec)
+        except Exception as e:  # noqa: BLE001
+            ck.hist("outputfix_outcomes", "raised:" + type(e).__name__)
+            continue
+        ck.count()
+        ck.hist("outputfix_outcomes", f"modified={mod}")
+        cases.append(spec)
+        terms.append(term)
+        if mod:
+            ck.nontriv(("outputfix", spec))
+    fam["outputfix"] = (cases, terms, T_OF, "of_agree")
+    # ---- RemoveUnusedOpsets
+    cases, terms = [], []
+    for i, spec in enumerate(function_family() + [I.gen_spec(rng) for _ in range(200 * scale)]):
+        for pf in (True, False):
+            term, mod = run_unused_opsets_case(spec, pf)
+            ck.count()
+            ck.hist("unused_opsets_outcomes", f"modified={mod}")
+            cases.append((pf, spec))
+            terms.append(term)
+            if mod:
+                ck.nontriv(("unused_opsets", pf, spec))
+    fam["unused_opsets"] = (cases, terms, T_UO, "uo_agree")
     fam["direct_failures"] = direct_failures
     return fam
 
@@ -933,6 +963,56 @@ def dup_output_family() -> list[dict]:
     fam.append(model([{"name": "call", "op": "F0", "domain": "fdom", "ins": ["x0", "cond"], "outs": ["c1", "c2"]}], ["c1", "c2"],
                      funcs=[{"domain": "fdom", "name": "F0", "graph": fbody}]))
     return fam
+
+
+def run_outputfix_case(spec: dict) -> str:
+    """OutputFixPass on the model of `spec`: Coq case term (graphs before, canonical graphs after, flag)."""
+    from onnx_ir.passes import common as cp
+    b = I.build(spec)
+    m = b.model
+    reg = I.Reg()
+    gl = [g for _, g in I.graphs_of(m)]
+    before = []
+    for g in gl:
+        before.append(([reg(v) + 1 for v in g.inputs], [reg(v) + 1 for v in g.outputs], {id(n) for n in g}))
+    allins = sorted({v for ins, _, _ in before for v in ins})
+    nxt = len(reg.ids) + 1
+    known = dict(reg.ids)
+    res = cp.OutputFixPass()(m)
+    obs = []
+    for g, (ins, outs, nodes_b) in zip(gl, before):
+        outs_a = list(g.outputs)
+        co = [copt(known[id(v)] + 1 if id(v) in known else None, cpos) for v in outs_a]
+        added = []
+        for n in g:
+            if id(n) not in nodes_b:
+                src = n.inputs[0]
+                pos = next((i for i, v in enumerate(outs_a) if v is n.outputs[0]), None)
+                added.append(f"({cpos(known[id(src)] + 1 if id(src) in known else 999999)}, {copt(pos, lambda x: f'{x}%nat')})")
+        obs.append(f"({clist(cpos(v) for v in [known[id(v)] + 1 for v in g.inputs])}, {clist(co)}, {clist(added)})")
+    cg = clist(f"{{| o_ins := {clist(cpos(v) for v in ins)}; o_outs := {clist(cpos(v) for v in outs)}; o_added := [] |}}"
+               for ins, outs, _ in before)
+    return f"({clist(cpos(v) for v in allins)}, {cpos(nxt)}, {cg}, ({clist(obs)}, {cbool(res.modified)}))", bool(res.modified)
+
+
+def run_unused_opsets_case(spec: dict, process_functions: bool):
+    import onnx_ir as ir
+    from onnx_ir.passes import common as cp
+    m = I.build(spec).model
+    toks = {"": 1}
+
+    def tok(d):
+        return toks.setdefault(d, len(toks) + 1)
+
+    def ug(gl):
+        return (f"{{| uo_imports := {clist(cpos(tok(d)) for d in gl.opset_imports)}; uo_node_domains := "
+                f"{clist(cpos(tok(n.domain)) for n in ir.traversal.RecursiveGraphIterator(gl))} |}}")
+
+    def mod():
+        return f"({ug(m.graph)}, {clist(f'({cpos(tok(f.domain))}, {ug(f)})' for f in m.functions.values())})"
+    before = mod()
+    res = cp.RemoveUnusedOpsetsPass(process_functions=process_functions)(m)
+    return f"({cbool(process_functions)}, {before}, ({mod()}, {cbool(res.modified)}))", bool(res.modified)
 
 
 def gen_composition(rng, names: list[str]):
